@@ -1,0 +1,56 @@
+//go:build verif
+
+// Contracts for govc (contract-based deductive verification, see /verif/DESIGN.md).
+// This file contains comments only; it is compiled only with -tags=verif and adds no code.
+
+package items
+
+//@ package items
+//@
+//@ # wf: classes non-empty, strictly increasing, pairwise disjoint (C18: "sorted, pairwise disjoint and non-empty")
+//@ spec wf(s []CharRange) bool = all(k, 0, len(s), s[k].From <= s[k].To) && all(a, 0, len(s), all(b, a+1, len(s), s[a].To < s[b].From))
+//@ spec runes(s []CharRange) bool = all(k, 0, len(s), 0 <= s[k].From && s[k].To <= 0x10FFFF)
+//@ spec mem(s []CharRange, r int) bool = some(j, 0, len(s), s[j].From <= r && r <= s[j].To)
+//@
+//@ func (*DisjunctRangeSet).insertRange
+//@   prop C18
+//@   requires [this] this != nil
+//@   requires [at] 0 <= at && at <= len(this.set)
+//@   ensures [len] len(this.set) == old(len(this.set)) + 1
+//@   ensures [before] all(k, 0, at, this.set[k] == old(this.set[k]))
+//@   ensures [at] this.set[at] == CharRange{from, to}
+//@   ensures [after] all(k, at+1, len(this.set), this.set[k] == old(this.set[k-1]))
+//@   ensures [after2] all(k, at, old(len(this.set)), this.set[k+1] == old(this.set[k]), trig(old(this.set[k])))
+//@   ensures [arr] arr(this.set) == old(arr(this.set)) || arr(this.set) >= old(alloc())
+//@   assigns this.set, elems(this.set)
+//@
+//@ func (*DisjunctRangeSet).AddRange
+//@   prop C18
+//@   ghost Mem0(r int) bool = some(j, 0, len(this.set), this.set[j].From <= r && r <= this.set[j].To)
+//@   requires [this] this != nil
+//@   requires [wf] wf(this.set)
+//@   requires [runes] runes(this.set) && 0 <= from && to <= 0x10FFFF
+//@   ensures [wf] wf(this.set)
+//@   ensures [runes] runes(this.set)
+//@   ensures [sound] all(k, 0, len(this.set), forall(r, imp(this.set[k].From <= r && r <= this.set[k].To, Mem0(r) || (from <= r && r <= to))))
+//@   ensures [compl] forall(r, imp(Mem0(r) || (from <= r && r <= to), mem(this.set, r)))
+//@   ensures [refine-old] all(k, 0, len(this.set), some(j, 0, old(len(this.set)), old(this.set[j]).From <= this.set[k].From && this.set[k].To <= old(this.set[j]).To)
+//@     | || forall(r, imp(this.set[k].From <= r && r <= this.set[k].To, !Mem0(r))))
+//@   ensures [refine-new] all(k, 0, len(this.set), (from <= this.set[k].From && this.set[k].To <= to) || this.set[k].To < from || to < this.set[k].From || from > to)
+//@   ensures [arr] arr(this.set) == old(arr(this.set)) || arr(this.set) >= old(alloc())
+//@   ensures [noop] imp(from > to, this.set == old(this.set) && all(k, 0, len(this.set), this.set[k] == old(this.set[k])))
+//@   assigns this.set, elems(this.set)
+//@   loop 1
+//@     invariant [i] 0 <= i && i <= len(this.set)
+//@     invariant [arr] arr(this.set) == old(arr(this.set)) || arr(this.set) >= old(alloc())
+//@     invariant [wf] wf(this.set)
+//@     invariant [runes] runes(this.set)
+//@     invariant [from] old(from) <= from && (from <= 0x110000 || from == old(from))
+//@     invariant [below] all(k, 0, i, this.set[k].To < from)
+//@     invariant [sound] all(k, 0, len(this.set), forall(r, imp(this.set[k].From <= r && r <= this.set[k].To, Mem0(r) || (old(from) <= r && r < from && r <= to))))
+//@     invariant [compl] forall(r, imp(Mem0(r) || (old(from) <= r && r < from && r <= to), mem(this.set, r)))
+//@     invariant [refine-old] all(k, 0, len(this.set), some(j, 0, old(len(this.set)), old(this.set[j]).From <= this.set[k].From && this.set[k].To <= old(this.set[j]).To)
+//@       | || forall(r, imp(this.set[k].From <= r && r <= this.set[k].To, !Mem0(r))))
+//@     invariant [refine-new] all(k, 0, len(this.set), (old(from) <= this.set[k].From && this.set[k].To < from && this.set[k].To <= to) || this.set[k].To < old(from) || from <= this.set[k].From || to < this.set[k].From || from == old(from))
+//@     invariant [noop] imp(old(from) > to, this.set == old(this.set) && all(k, 0, len(this.set), this.set[k] == old(this.set[k])))
+//@     decreases len(this.set) - i
